@@ -16,7 +16,7 @@ const PID: &str = "C20";
 /// type, unknown attached type
 const FAULTS: &[&str] = &[
     "unknown-property", "ill-typed-constant", "ill-typed-dynamic-operands", "duplicate-property", "duplicate-attached", "unknown-attached-type",
-    "invalid-color", "unknown-object-type", "invalid-object-type",
+    "invalid-color", "unknown-object-type", "invalid-object-type", "unused-attached", "no-attached-class",
 ];
 
 pub struct Case {
@@ -334,7 +334,7 @@ pub fn run(env: &Env, known: &Known, started: Instant, replayed: u64, replay_vio
     let rr = run_choices(&cfg, run_case);
     let ev = Evidence {
         env, pid: PID, level: "exploration",
-        rule: "accepted documents of 1-30 objects (layouts with explicit cells, spans and stretches included) with one planted fault from {unknown property, ill-typed constant, dynamic expression with ill-typed operands, invalid colour inside a palette group, duplicate property binding, duplicate attached binding, unknown attached type, unknown object type, non-class object type} at a random object; metamorphic oracle in omit mode: a form exists, an error lies inside the faulty text, and the form is, outside the faulty object (whose own property/attribute values, model items and <item> attributes are masked; place, class, name and child objects are not), equal to the omit-mode form of the document with the faulty binding (or a larger subset of the faulty object's OWN bindings: its group or all its plain bindings for a fault among the plain bindings; its attached type or all its attached bindings for a fault among the attached ones) removed, resp. with exactly the faulty object's subtree removed (up to renumbering of generated names). Non-trivial = fault on a non-root object with a sibling, in a document with a grid/form layout or >=2 anonymous objects of that class; distinct by (tree, fault kind) hash.",
+        rule: "accepted documents of 1-30 objects (layouts with explicit cells, spans and stretches included) with one planted fault from {unknown property, ill-typed constant, dynamic expression with ill-typed operands, invalid colour inside a palette group, duplicate property binding, duplicate attached binding, unknown attached type, attached binding nobody consumes, attached type without attached class, unknown object type, non-class object type} at a random object; metamorphic oracle in omit mode: a form exists, an error lies inside the faulty text, and the form is, outside the faulty object (whose own property/attribute values, model items and <item> attributes are masked; place, class, name and child objects are not), equal to the omit-mode form of the document with the faulty binding (or a larger subset of the faulty object's OWN bindings: its group or all its plain bindings for a fault among the plain bindings; its attached type or all its attached bindings for a fault among the attached ones) removed, resp. with exactly the faulty object's subtree removed (up to renumbering of generated names). Non-trivial = fault on a non-root object with a sibling, in a document with a grid/form layout or >=2 anonymous objects of that class; distinct by (tree, fault kind) hash.",
         assumptions: vec!["'loses at most its own property values' is made exact as: equals the form of the same document with some subset of that object's own bindings deleted".into(),
             "a second `id:` line is not planted (an id is not a property binding; the statement does not list it)".into()],
         extra: json!({}),
